@@ -22,5 +22,12 @@ let run () =
         let counts = interp_counts est' (nat_of_int size) (z_of_int (int_of_string req)) in
         Printf.printf "counts%s | %d\n" (String.concat "" (List.map (fun c -> " " ^ string_of_int (int_of_z c)) counts))
           (int_of_z (total_states (nat_of_int size) counts))
+    | "RV" :: n :: ms :: me :: rn :: rd :: tseed :: "|" :: pairs ->
+        let ni s = nat_of_int (int_of_string s) in
+        let ok = List.map (fun t -> let k = String.index t '-' in (ni (String.sub t 0 k), ni (String.sub t (k + 1) (String.length t - k - 1)))) pairs in
+        let ts = int_of_string tseed in
+        let tape = List.init 600 (fun k -> (z_of_int ((ts + 7 * k + 3 * k * k) mod 64), z_of_int 64)) in
+        let (q, ret) = rv_run (ni n) (ni ms) (ni me) (z_of_int (int_of_string rn)) (z_of_int (int_of_string rd)) ok tape in
+        Printf.printf "rv %d |%s\n" (if ret then 1 else 0) (String.concat "" (List.map (fun v -> " " ^ string_of_int (int_of_nat v)) q))
     | ["SUBDIV"; n] -> let n = int_of_string n in Printf.printf "total %d\n" (int_of_z (total_states (nat_of_int n) (subdivide_counts (nat_of_int n))))
     | _ -> ())
